@@ -196,6 +196,9 @@ func report(ex *Exec, verbose bool) int {
 	for _, ob := range ex.obls {
 		if ob.Result != nil && strings.Contains(strings.Join(ob.Result.Tried, " "), ":error:") {
 			nerr++
+			if verbose {
+				fmt.Printf("   REJECTED %s %v %s\n", ob.Name, ob.Result.Tried, ob.Result.Output)
+			}
 		}
 	}
 	if nerr > 0 {
